@@ -5,7 +5,7 @@ CHECKS = {
         "call arity, operator/predicate/conversion tables, C precedence vs parenthesisation, struct layout vs GEP indexes, "
         "allocation width, identifiers provided, hoisting totality; plus IR type inference of every emitted kernel of the family "
         "against the operand-type cases the LLVM printer implements.",
-        technique="custom AST checkers over the two printers (table extraction + semantic tables), static type inference / liveness of emitted kernel IR, LLVM parser+verifier on the printed modules (nothing compiled or run)",
+        technique="custom AST checkers over the two printers (table extraction + semantic tables), abstract evaluation of the C expression printer with the printed text read back by a reference C precedence grammar, static type inference / liveness of emitted kernel IR, LLVM parser+verifier on the printed modules (nothing compiled or run)",
         design_ref="DESIGN.md section 3 C06",
         engine="S+K",
         undecided="bit-identical results of gcc vs LLVM JIT; that the C compiles / the LLVM module verifies (would require running tool chains)",
@@ -54,7 +54,7 @@ CHECKS.update({
     "C10": dict(
         text="Who-may-enter-kernel (single call site of the compiled pointer), must-pass-through by statement dominance "
         "(signature.bind, per-argument checks, per-index dimension cross-check with iteration-coverage domain), Problem/make_problem rejections.",
-        technique="abstract evaluation of TensorMethod.__call__, the porcelain and make_problem over symbolic tensor metadata (equality assumptions, event of kernel entry) + who-may-call + template matching with metavariables",
+        technique="abstract evaluation of TensorMethod.__init__ and __call__ (the call is evaluated on the object __init__ builds), the porcelain and make_problem over symbolic tensor metadata (equality assumptions, event of kernel entry) + who-may-call + statement dominance",
         design_ref="DESIGN.md section 3 C10",
         engine="S",
         undecided="that cffi itself rejects non-cdata arguments",
@@ -102,7 +102,7 @@ CHECKS.update({
     "C15": dict(
         text="Enumeration of every hash-order-observing construct on the generation path against a confirmed-benign table with "
         "machine-checked side conditions, stable-set implementation, purity of the generation path, cache-key completeness, CLI dataflow.",
-        technique="typed dataflow enumeration of order-observing sites + purity/effect analysis + abstract evaluation of the stable-set classes, Problem equality/hash and make_problem + cache-key field analysis (ast/inspect)",
+        technique="typed dataflow enumeration of order-observing sites (taint to text sinks in the evaluate layer) + purity/effect analysis + abstract evaluation of the stable-set classes, Problem equality/hash and make_problem + cache-key field analysis (ast/inspect)",
         design_ref="DESIGN.md section 3 C15",
         engine="S",
         undecided="byte-equality across processes of llvmlite's own printing (outside the repository)",
